@@ -11,7 +11,8 @@ class C13(Prop):
     pid = "C13"
     rule = ("annotated simple networks: 60% hand-built (2-14 vertices, 1-3 arbitrary topology names, annotation = incident edges per "
             "topology or a coarser consistent one, self-paired classes frequent), 40% produced by the real network generator; "
-            "get_ejks() is called 1-4 times on one extractor; every entry is recovered as an exact rational with denominator 2*E_tau; "
+            "annotations as tuples, lists or integer arrays, edge names as separate string objects; get_ejks() is called 1-4 times on one extractor, then "
+            "another extractor is run on a different network with the same names and the first one is asked again; every entry is recovered as an exact rational with denominator 2*E_tau; "
             "non-trivial = at least 3 edges and a topology with both a self-paired and a split class or at least 2 calls; distinct = distinct case")
     assumptions = ["float accumulations of 1/E and 0.5/E are mapped back to the unique rational with denominator <= 2*E (exact for these sizes)"]
     model_scope = "modelled: joint_excess_joint_degree.py, joint_excess_degree.py, JointExcessJointDegreeMatrices.get_excess_degree_keys"
